@@ -489,10 +489,36 @@ def rand_tree(rng, depth, shape=None, base=None):
         if not pshape:
             return parent
         rev, trans = rand_orient(rng, len(pshape))
-        return {'kind': 'reorient', 'parent': parent, 'rev': rev, 'trans': trans}
+        return maybe_complex(rng, {'kind': 'reorient', 'parent': parent, 'rev': rev, 'trans': trans})
     if r < 0.8:
-        return rand_blocks(rng, depth)
-    return rand_bands(rng, depth)
+        return maybe_complex(rng, rand_blocks(rng, depth))
+    return maybe_complex(rng, rand_bands(rng, depth))
+
+
+def _plain(spec):
+    if spec.get('fmt'):
+        return False
+    if 'parent' in spec and not _plain(spec['parent']):
+        return False
+    return all(_plain(c) for c in spec.get('children', []))
+
+
+def maybe_complex(rng, spec, p=0.15):
+    """now and then a ComplexFormatFunction (IQ / QI, band axis collapsed or kept) on a re-orientation or an aggregate whose
+    (integer) raw data has an axis of even length"""
+    if rng.random() >= p or not _plain(spec):
+        return spec
+    try:
+        o = oriented_shape(raw_shape_of(spec), spec.get('trans'))
+    except Exception:
+        return spec
+    cand = [j for j, n in enumerate(o) if n >= 2 and n % 2 == 0]
+    if not cand or len(o) < 2:
+        return spec
+    bd = rng.choice(cand)
+    spec['fmt'] = {'kind': 'complex', 'order': rng.choice(['IQ', 'QI']), 'band_dim': bd,
+                   'collapsed': o[bd] == 2 and rng.random() < 0.6}
+    return spec
 
 
 def tree_class(spec):
